@@ -215,6 +215,20 @@ class LibCalls:
                 return [(s, r if isinstance(r, Exc) else tok) for s, r in write(st, Val(cur.t, e.coerce(args[0], T, node).z))]
             if name == "reset":
                 return [(s, r if isinstance(r, Exc) else e.const_val(None)) for s, r in write(st, Val(cur.t, args[0].z))]
+        if k == "map" and name == "get" and base.t[2][0] == "set":
+            # defaultdict modelled as a total map (absent keys read as the empty default): get() does not insert; for an empty entry the key may be
+            # absent (-> default / None) or present with an empty set: both outcomes are explored; a non-empty entry is present
+            kz = e.coerce(args[0], base.t[1], node).z
+            val = Val(base.t[2], z3.Select(base.z, kz))
+            x = z3.Const(fresh_name("x"), e.sort(base.t[2][1]))
+            nonempty = z3.Exists([x], z3.Select(val.z, x))
+            out = []
+            for s, ne in e.split(st, nonempty):
+                out.append((s, val))
+                if not ne:
+                    s2 = s.fork()
+                    out.append((s2, args[1] if len(args) > 1 else e.const_val(None)))
+            return out
         if k == "concdict" and name == "get":
             key = e.coerce(args[0], INT, node).z
             out = []
